@@ -124,6 +124,9 @@ impl<'a> Name<'a> {
     }
 
     fn plain_append<T: std::io::Write>(&self, out: &mut T) -> crate::Result<()> {
+        #[cfg(simple_dns_verif)]
+        crate::dns::verif::record(14, crate::dns::verif::record_name(self), 0, 0);
+
         for label in self.iter() {
             out.write_all(&[label.len() as u8])?;
             out.write_all(&label.data)?;
@@ -138,10 +141,15 @@ impl<'a> Name<'a> {
         out: &mut T,
         name_refs: &mut HashMap<&'a [Label<'a>], usize>,
     ) -> crate::Result<()> {
+        #[cfg(simple_dns_verif)]
+        crate::dns::verif::record(10, crate::dns::verif::record_name(self), 0, 0);
+
         for (i, label) in self.iter().enumerate() {
             match name_refs.entry(&self.labels[i..]) {
                 std::collections::hash_map::Entry::Occupied(e) => {
                     let p = *e.get() as u16;
+                    #[cfg(simple_dns_verif)]
+                    crate::dns::verif::record(11, i, (p | POINTER_MASK_U16) as usize, 0);
                     out.write_all(&(p | POINTER_MASK_U16).to_be_bytes())?;
 
                     return Ok(());
@@ -152,12 +160,16 @@ impl<'a> Name<'a> {
                     if offset <= usize::from(!POINTER_MASK_U16) {
                         e.insert(offset);
                     }
+                    #[cfg(simple_dns_verif)]
+                    crate::dns::verif::record(12, i, offset, name_refs.contains_key(&self.labels[i..]) as usize);
                     out.write_all(&[label.len() as u8])?;
                     out.write_all(&label.data)?;
                 }
             }
         }
 
+        #[cfg(simple_dns_verif)]
+        crate::dns::verif::record(13, self.labels.len(), 0, 0);
         out.write_all(&[0])?;
         Ok(())
     }
